@@ -605,6 +605,7 @@ def cleanup(record):
     if world is not None:
         world.seam.pins.clear()
         world.seam.models.clear()
+        world.seam.revoked.clear()
         world.requests.clear()
         world.events.clear()
         world.pinned.clear()
